@@ -85,6 +85,21 @@ func c14Run(c *fw.Ctx, state string, q rune, s string) {
 			c.Violation("default-tokenizer-read-back:"+state, "default %s tokenizer with DecodeStrings over %q (encoding of %q): %s; one Quoted token with the original value expected", state, enc, s, detail)
 		}
 	}
+	// (c'') a CSV tokenizer configured with the non-Latin quote: the literal after a non-Latin field
+	if state == "csv" && q == '”' {
+		t := csv.NewCsvTokenizer()
+		t.SetQuoteSymbols([]rune{q})
+		t.SetDecodeStrings(true)
+		res := tokenizeOn(t, "я,"+enc)
+		c.Eval(1)
+		if res.failed() || len(res.toks) != 4 || res.toks[0].val != "я" || res.toks[1].typ != tokenizers.Symbol || res.toks[2].typ != tokenizers.Quoted || res.toks[2].val != s {
+			detail := tokStr(res.toks)
+			if res.failed() {
+				detail = res.failStr()
+			}
+			c.Violation("configured-tokenizer-read-back:csv", "CSV tokenizer with quote %q and DecodeStrings over %q: %s; the field я, a separator and one Quoted token holding %q expected", string(q), "я,"+enc, detail, s)
+		}
+	}
 	// (c) the encoded form in a stream is read back as exactly one token
 	for _, tail := range c14Tails {
 		text := enc + tail
